@@ -66,7 +66,21 @@ EXPLANATION = ("Lean theorems about the cooling-loop fold of the 0D/1D models + 
                "against Snowing.run(); the property itself re-evaluated on the real recorded fields with an "
                "independent quadrature")
 PARALLEL = True
-LEVEL_TEXT = ("Lean 4 theorems about executable models of _run_0D and _run_1D (exact real arithmetic), tied to /repo on every run by a differential check (bit-for-bit agreement observed except np.mean). Proved in full for 0D and 1D: nucleation at the first step with F_nuc > F_rand and at no other (fold invariant of the cooling loop); E is the Riemann sum of K_v dt with K_v = J V (0D) / A simpson(J_z, z) (1D) over the supercooled mask; E is non-decreasing; the weights of scipy's simpson on a uniform grid are derived from its formula for both parities (odd: h/3[1,4,2,...,4,1]; even: last three 5h/4, h, 5h/12) and are non-negative; min <= mean <= max; min <= T_kin <= T_eq_l when K_v > 0 and T_kin = 273.15 K otherwise; the four numbers are those of the field of the break step. The same clauses are proved for the 2D model (SnowModel/Snowing2D.lean, K_v = simpson(2 pi simpson(r J, r), z), weights w_z 2 pi r w_r >= 0) through a bridge that identifies its cooling loop with the generic fold; the 2D model is tied to /repo by comparing real 2D runs (nucleation step, t_nuc, the four temperatures) and the clauses are also evaluated on the real 2D fields.")
+
+# --- regeneration tie (harness/gentie.py): the formulas of the hand model SnowModel/Snowing0D.lean, Snowing1D.lean are re-derived
+# from /repo's source on every run and proved equal to the generated text (lean/SnowProofs/Props/GenTie/)
+import gentie  # noqa: E402
+THEOREMS = THEOREMS + gentie.theorems("0D") + gentie.theorems("1D")
+extra_lean_targets = list(globals().get("extra_lean_targets", [])) + [gentie.module("0D"), gentie.module("1D")]
+TRUSTED = TRUSTED + ["harness/translate.py formula extraction (single assignments of the run loop -> Lean definitions; "
+                     "anything outside its tiny language is a TranslatorError)"]
+
+
+def regenerate():
+    gentie.regenerate("0D")
+    gentie.regenerate("1D")
+
+LEVEL_TEXT = ("Lean 4 theorems about executable models of _run_0D and _run_1D (exact real arithmetic), tied to /repo on every run by a differential check (bit-for-bit agreement observed except np.mean). Proved in full for 0D and 1D: nucleation at the first step with F_nuc > F_rand and at no other (fold invariant of the cooling loop); E is the Riemann sum of K_v dt with K_v = J V (0D) / A simpson(J_z, z) (1D) over the supercooled mask; E is non-decreasing; the weights of scipy's simpson on a uniform grid are derived from its formula for both parities (odd: h/3[1,4,2,...,4,1]; even: last three 5h/4, h, 5h/12) and are non-negative; min <= mean <= max; min <= T_kin <= T_eq_l when K_v > 0 and T_kin = 273.15 K otherwise; the four numbers are those of the field of the break step. The same clauses are proved for the 2D model (SnowModel/Snowing2D.lean, K_v = simpson(2 pi simpson(r J, r), z), weights w_z 2 pi r w_r >= 0) through a bridge that identifies its cooling loop with the generic fold; the 2D model is tied to /repo by comparing real 2D runs (nucleation step, t_nuc, the four temperatures) and the clauses are also evaluated on the real 2D fields. The per-step formulas of the 0D and 1D hand models are additionally tied by REGENERATION: harness/translate.py extracts them from /repo on every run and SnowProofs/Props/GenTie proves the generated text equal to the hand model (a changed formula breaks that proof).")
 
 TIE = 1e-9
 
